@@ -221,3 +221,64 @@ def rfc6979(ctx: Ctx):
                     tag=lambda r: "rfc6979", describe=lambda r: f"h={bytes(r['h']).hex()} x={bytes(r['x']).hex()} "
                     f"k={bytes(r['k']).hex()} calls={len(r['calls'])}")
     return m, sigs
+
+
+def big_rows(ctx: Ctx):
+    """ecdsa_raw_sign / recover / privtopub of the real module at full size, with the recorded HMAC calls."""
+    from .constants import limbs
+    rng = random.Random(ctx.seed + 37)
+    m = toy.private_module("py_ecc/secp256k1/secp256k1.py", "py_ecc.secp256k1")
+    N = m.N
+    rec = _HmacRecorder()
+    m.hmac = rec
+    quick = ctx.tier == "quick"
+    keys = [1, 2, N - 2, N - 1, 2 ** 255, rng.getrandbits(64) | 1] + \
+        [rng.randrange(1, N) for _ in range(3 if quick else 30)]
+    hashes = [b"\x00" * 32, b"\xff" * 32, (N - 1).to_bytes(32, "big"), N.to_bytes(32, "big"), (N + 1).to_bytes(32, "big"),
+              b"", b"\x07", bytes(range(33)), b"\xff" * 64, rng.randbytes(32), rng.randbytes(32), rng.randbytes(47)]
+    ids = {}
+
+    def pid(pt):
+        pt = (int(pt[0]), int(pt[1]))
+        if pt not in ids:
+            ids[pt] = len(ids) + 1
+        return ids[pt]
+    rows = []
+    for d in keys:
+        priv = d.to_bytes(32, "big")
+        for h in (hashes if d in keys[:3] else rng.sample(hashes, 4)):
+            row = {"h": list(h), "dkey": list(priv)}
+            try:
+                rec.calls = []
+                v, r, s = m.ecdsa_raw_sign(h, priv)
+                row["calls"] = list(rec.calls)
+                k = m.bytes_to_int(bytes(row["calls"][4]["out"])) if len(row["calls"]) >= 5 else 0
+                R = m.multiply(m.G, k)
+                row.update({"k": limbs(k), "rx": limbs(R[0]), "ry": limbs(R[1]), "v": v, "r": limbs(r), "s": limbs(s),
+                            "pub": pid(m.privtopub(priv))})
+                try:
+                    row["rec"] = pid(m.ecdsa_raw_recover(h, (v, r, s)))
+                except ValueError:
+                    row["rec"] = 0
+                try:
+                    row["oth"] = pid(m.ecdsa_raw_recover(h, (55 - v, r, s)))
+                except ValueError:
+                    row["oth"] = 0
+                if len(row["calls"]) != 5:
+                    row["exc"] = f"BADVALUE:{len(row['calls'])} HMAC calls"
+                    row["calls"] = (row["calls"] + [{"key": [], "msg": [], "out": [], "alg": ""}] * 5)[:5]
+            except Exception as e:  # noqa: BLE001
+                row["exc"] = f"EXC:{type(e).__name__}:{e}"[:120]
+                row.update({"calls": [{"key": [], "msg": [], "out": [], "alg": ""}] * 5, "k": [], "rx": [], "ry": [], "v": 0,
+                            "r": [], "s": [], "pub": 0, "rec": 0, "oth": 0})
+            rows.append(row)
+    return rows
+
+
+def big(ctx: Ctx):
+    rows = big_rows(ctx)
+    ctx.log(f"ecdsa full size: {len(rows)} sign / recover round trips of the real module")
+    ctx.add_cov("full_size_signatures", len(rows))
+    tables.validate(ctx, "EcdsaBig", rows, invariants=["RowsOK"], result_keys=(), tag=lambda r: "ecdsabig",
+                    describe=lambda r: f"h={bytes(r['h']).hex()} d={bytes(r['dkey']).hex()} v={r['v']} "
+                                       f"rec={r['rec']} oth={r['oth']} pub={r['pub']}")
